@@ -41,9 +41,16 @@ class Untranslatable(Exception):
     pass
 
 
+def lean_string(t: str) -> str:
+    return '"' + t.replace("\\", "\\\\").replace('"', '\\"').replace("\n", "\\n").replace("\t", "\\t") + '"'
+
+
 def lname(n: str) -> str:
     if n == "_":
         return "underscore_"
+    if "#" in n:                              # a further typed version of a re-bound variable (`match#2`)
+        n, k = n.split("#")
+        return f"{n}_{k}"
     return n + "_" if n in LEAN_KEYWORDS else n
 
 
@@ -88,6 +95,8 @@ def parse_type(s: str):
             return ("Col", atom())
         if h == "Masked2":                    # a 2-d `numpy.ma` masked array: (data, mask)
             return ("Masked2", atom())
+        if h == "Stream":                     # an iterator that may raise after its items (Py.Stream)
+            return ("Stream", atom())
         if h == "Dict":
             k = atom(); v = atom()
             return ("Dict", k, v)
@@ -128,7 +137,11 @@ def show_type(t) -> str:
             return "((List Int) × (List Int))"
         if t == "Frac":                            # the exact value of `a / b` on Python ints: the pair (a, b), b ≠ 0 (the float is its rounding)
             return "(Int × Int)"
+        if t == "Exc":
+            return "Py.Exc"
         return "Int" if is_node(t) else t          # a node handle is the row index it dereferences on every access
+    if t[0] == "Stream":
+        return f"(Py.Stream {show_type(t[1])})"
     if t[0] == "List":
         return f"(List {show_type(t[1])})"
     if t[0] == "Option":
@@ -204,6 +217,8 @@ class Fn:
     stmt_subst: dict = field(default_factory=dict)  # source text of a statement -> python source of its meaning on the column variables
     defaults: dict = field(default_factory=dict)    # parameter name -> source text of its default value (CHECKED against the `def` on every run; used when a
                                                     # caller omits the argument)
+    raises: bool = False                            # exceptions are tracked (`Except Py.Exc R`): `raise`, `try/except`, `with` are translated
+    fparams: list = field(default_factory=list)     # lean binders of PURE function parameters (the text level abstracted: `(blank : L → Bool)`)
     doc: str = ""
     module: str = "AlgoDsu"                         # generated file Gen/<module>.lean (one per group, so that a change to one
                                                     # source file cannot break the generated module of an unrelated property)
@@ -247,12 +262,20 @@ class FnTr:
         self.aux = []                      # hoisted loop bodies / conditions: (name, lean type, code)
         self.nloop = 0
         self.hoist = True                  # switched off for recursive functions (their body is a local definition)
-        cbb = " ".join(b for b, _, _ in spec.callbacks.values())
+        cbb = " ".join([b for b, _, _ in spec.callbacks.values()] + list(spec.fparams))
+        self.cbb = cbb
         self.num = set(spec.num_tparams)
         self.all_tparams = list(spec.tparams) + list(spec.num_tparams)
         tpsi = tparam_binders(spec)
         self.binders_nofuel = f"{tpsi} {cbb}".strip()
-        self.bargs_nofuel = " ".join(b.split()[0].strip("(") for b, _, _ in spec.callbacks.values())
+        self.bargs_nofuel = " ".join([b.split()[0].strip("(") for b, _, _ in spec.callbacks.values()] + [b.split()[0].strip("(") for b in spec.fparams])
+        # a name re-bound to values of different types (`match`): one typed field per declared version `name#k`; `cur` says which one the
+        # name denotes at the current program point (None = not known statically: reading it is a translator failure)
+        self.versions = {}
+        for k in spec.vars:
+            if "#" in k:
+                self.versions.setdefault(k.split("#")[0], [k.split("#")[0]]).append(k)
+        self.cur = {n: None for n in self.versions}
         tapp = (" " + " ".join(self.all_tparams)) if self.all_tparams else ""
         self.Vt = f"({spec.lean}.V{tapp})" if self.all_tparams else f"{spec.lean}.V"
 
@@ -262,6 +285,31 @@ class FnTr:
         self.tmp += 1
         self.extra_vars[n] = ty
         return n
+
+    def ret_t(self):
+        r = show_type(parse_type(self.spec.ret))
+        return f"(Except Py.Exc {r})" if self.spec.raises else r
+
+    def resolve(self, n):
+        """the field a (possibly re-typed) name denotes here"""
+        if n in self.versions:
+            if self.cur[n] is None:
+                raise Untranslatable(f"{self.spec.lean}: `{n}` is read where its type is not statically known")
+            return self.cur[n]
+        return n
+
+    def assign_version(self, n, t):
+        """assignment of a value of type `t` to a name with several typed versions: selects the version"""
+        if n in self.versions:
+            for k in self.versions[n]:
+                if self.vars[k] == t:
+                    self.cur[n] = k
+                    return k
+            raise Untranslatable(f"{self.spec.lean}: `{n}` has no declared version of type {t}")
+        return n
+
+    def assigned_versions(self, stmts):
+        return {nd.id for b in stmts for nd in ast.walk(b) if isinstance(nd, ast.Name) and isinstance(nd.ctx, ast.Store) and nd.id in self.versions}
 
     def var_type(self, n):
         if n in self.vars:
@@ -276,8 +324,8 @@ class FnTr:
     def tr(self, e, want=None):
         txt = ast.unparse(e)
         if txt in self.spec.subst:
-            code, ty = self.spec.subst[txt]
-            return [], code, parse_type(ty)
+            code, ty, *steps = self.spec.subst[txt]        # (code, type) or (code, type, [fallible steps evaluated before it])
+            return list(steps[0]) if steps else [], code, parse_type(ty)
         m = getattr(self, "e_" + type(e).__name__, None)
         if m is None:
             raise Untranslatable(f"{self.spec.lean}: expression `{txt}`")
@@ -302,8 +350,9 @@ class FnTr:
             return [], f"({self.consts[e.id]} : Int)", "Int"
         if e.id in self.spec.callbacks:
             raise Untranslatable(f"callback `{e.id}` used as a value")
-        ty = self.var_type(e.id)
-        return [], f"v.{lname(e.id)}", ty
+        key = self.resolve(e.id)
+        ty = self.var_type(key)
+        return [], f"v.{lname(key)}", ty
 
     def e_Attribute(self, e, want):
         if e.attr == "shape":
@@ -505,11 +554,12 @@ class FnTr:
         """`(x := e)`: assigns and yields the value"""
         if not isinstance(e.target, ast.Name):
             raise Untranslatable("walrus target")
-        st, c, t = self.tr(e.value, self.vars.get(e.target.id))
+        st, c, t = self.tr(e.value, None if e.target.id in self.versions else self.vars.get(e.target.id))
         if e.target.id not in self.vars and e.target.id not in self.extra_vars:
             self.vars[e.target.id] = t
-        self.check_type(e.target.id, t, e)
-        return st + [f"let v := {{ v with {lname(e.target.id)} := {c} }};"], f"v.{lname(e.target.id)}", t
+        key = self.assign_version(e.target.id, t)
+        self.check_type(key, t, e)
+        return st + [f"let v := {{ v with {lname(key)} := {c} }};"], f"v.{lname(key)}", t
 
     def e_IfExp(self, e, want):
         # `cb(...) if cb is not None else None`: callbacks are always present (an absent callback is the trivial one)
@@ -650,7 +700,7 @@ class FnTr:
             g = e.generators[0]
         self.bind_target_types(g.target, elem_t)
         if kind == "list":
-            _, _, et = self.tr(e.elt)
+            _, _, et = self.tr(e.elt, want[1] if isinstance(want, tuple) and want[0] == "List" else None)
             tmp_t = ("List", et)
         else:
             _, _, kt = self.tr(e.key)
@@ -688,7 +738,7 @@ class FnTr:
         return e
 
     def elem_type(self, t):
-        if isinstance(t, tuple) and t[0] == "List":
+        if isinstance(t, tuple) and t[0] in ("List", "Stream"):
             return t[1]
         if isinstance(t, tuple) and t[0] in ("Dict", "DDict"):
             return t[1]
@@ -955,7 +1005,13 @@ class FnTr:
             return s, f"(Py.range {c})", ("List", "Int")
         if f == "enumerate" and len(args) == 1:
             s, c, t = self.tr(args[0])
+            if isinstance(t, tuple) and t[0] == "Stream":
+                return s, f"(Py.Stream.enumerate {c})", ("Stream", ("Prod", "Int", t[1]))
             return s, f"(Py.enumerate {c})", ("List", ("Prod", "Int", self.elem_type(t)))
+        if f == "pd.DataFrame.from_dict" and len(args) == 1 and not kw:
+            s, c, t = self.tr(args[0], want)            # a DataFrame built from a dict of columns IS that dict (insertion-ordered)
+            if isinstance(t, tuple) and t[0] == "Dict":
+                return s, c, t
         if f == "zip" and len(args) == 2:
             s1, a, ta = self.tr(args[0]); s2, b, tb = self.tr(args[1])
             return s1 + s2, f"(Py.zip {a} {b})", ("List", ("Prod", self.elem_type(ta), self.elem_type(tb)))
@@ -1205,6 +1261,13 @@ class FnTr:
                 s1, k, _ = self.tr(e.args[0]); s2, dv, _ = self.tr(e.args[1], td[2])
                 lv = self.lvalue(recv)
                 return self.chain(s0 + s1 + s2, ".next " + lv(f"(Py.Dict.setdefault {d} {k} {dv})"))
+        if isinstance(e, ast.Call) and ast.unparse(e.func) == "warnings.warn" and 1 <= len(e.args) <= 2 and self.vars.get("warnings_") == ("List", "Exc"):
+            # `warnings.warn(msg[, category])`: appended to the log of warnings `warnings_`
+            cat = e.args[1].id if len(e.args) == 2 and isinstance(e.args[1], ast.Name) else ("UserWarning" if len(e.args) == 1 else None)
+            if cat is None:
+                raise Untranslatable(f"{self.spec.lean}: warning category `{ast.unparse(e)}`")
+            steps, exc = self.exc_value(e.args[0], cat)
+            return self.chain(steps, f".next {{ v with warnings_ := v.warnings_ ++ [{exc}] }}")
         # any other call evaluated for its effect
         st, c, t = self.tr(e)
         return self.chain(st, ".next v")
@@ -1225,14 +1288,15 @@ class FnTr:
             ast.copy_location(new, s); ast.fix_missing_locations(new)
             return self.s_Assign(new)
         if isinstance(tgt, ast.Name):
-            want = self.vars.get(tgt.id) or self.extra_vars.get(tgt.id)
+            want = None if tgt.id in self.versions else (self.vars.get(tgt.id) or self.extra_vars.get(tgt.id))
             st, c, t = self.tr(s.value, want)
             if tgt.id not in self.vars and tgt.id not in self.extra_vars:
                 self.vars[tgt.id] = t
             if isinstance(want, tuple) and want[0] == "Option" and t == want[1]:
                 c, t = self.coerce(c, t, want), want           # a value stored into a variable that may also hold None
-            self.check_type(tgt.id, t, s)
-            return self.chain(st, f".next {{ v with {lname(tgt.id)} := {c} }}")
+            key = self.assign_version(tgt.id, t)
+            self.check_type(key, t, s)
+            return self.chain(st, f".next {{ v with {lname(key)} := {c} }}")
         if isinstance(tgt, ast.Tuple) and all(isinstance(x, ast.Name) for x in tgt.elts):
             st, c, t = self.tr(s.value)
             parts = prod_parts(t, len(tgt.elts))
@@ -1363,18 +1427,23 @@ class FnTr:
             a, b = self.stmt(asg), self.s_If(new)
             return f"(Py.seq {a}\n{b})"
         st, c, t = self.tr(s.test)
+        cur0 = dict(self.cur)
         a = self.block(s.body)
+        cur1, self.cur = self.cur, dict(cur0)
         b = self.block(s.orelse) if s.orelse else "Py.skip"
+        self.cur = {n: (k if cur1[n] == k else None) for n, k in self.cur.items()}     # after the merge: only what both branches agree on
         return self.chain(st, f"if {self.as_bool(c, t)} then {a} v else {b} v")
 
     def s_Return(self, s):
         if s.value is None:
-            return f"(fun (v : {self.Vt}) => .ret v default)"
+            return f"(fun (v : {self.Vt}) => .ret v {'(.ok default)' if self.spec.raises else 'default'})"
         rt = parse_type(self.spec.ret)
         st, c, t = self.tr(s.value, rt)
         if rt == "Frac" and t == "Int":
-            c = self.coerce(c, t, rt)
-        return self.chain(st, f".ret v {c}")
+            c, t = self.coerce(c, t, rt), rt
+        if t != rt and self.spec.raises:
+            raise Untranslatable(f"{self.spec.lean}: returns {t}, declared {rt}")
+        return self.chain(st, f".ret v (.ok {c})" if self.spec.raises else f".ret v {c}")
 
     def s_Continue(self, s):
         return f"(fun (v : {self.Vt}) => .cont v)"
@@ -1383,7 +1452,129 @@ class FnTr:
         return f"(fun (v : {self.Vt}) => .brk v)"
 
     def s_Raise(self, s):
-        return f"(fun (v : {self.Vt}) => .err)"
+        if not self.spec.raises:
+            return f"(fun (v : {self.Vt}) => .err)"            # untracked: some exception
+        # `raise K(f"…")` / `raise K` (`from cause` only sets `__cause__`): a tracked exception
+        if s.exc is None:
+            raise Untranslatable(f"{self.spec.lean}: bare `raise`")
+        steps, exc = self.exc_value(s.exc, None)
+        return self.chain(steps, f"Py.raise {exc} v")
+
+    def exc_value(self, e, default_kind):
+        """`K(msg)` / `K` / `msg` (with a default class) -> (steps, lean term of type Py.Exc)"""
+        if isinstance(e, ast.Name) and default_kind is None:
+            return [], f'(⟨"{e.id}", "", []⟩ : Py.Exc)'
+        if isinstance(e, ast.Call) and isinstance(e.func, ast.Name) and len(e.args) <= 1 and not e.keywords and default_kind is None:
+            kind, msg = e.func.id, (e.args[0] if e.args else ast.Constant(""))
+        elif default_kind is not None:
+            kind, msg = default_kind, e
+        else:
+            raise Untranslatable(f"{self.spec.lean}: exception `{ast.unparse(e)}`")
+        steps, args, tmpl = [], [], ""
+        if isinstance(msg, ast.Constant) and isinstance(msg.value, str):
+            tmpl = msg.value
+        elif isinstance(msg, ast.JoinedStr):
+            # the message template keeps every placeholder as source text; the integer placeholders that can be translated are the arguments
+            for part in msg.values:
+                if isinstance(part, ast.Constant):
+                    tmpl += str(part.value)
+                else:
+                    tmpl += "{" + ast.unparse(part.value) + "}"
+                    try:
+                        s0, c, t = self.tr(part.value)
+                    except Untranslatable:
+                        continue
+                    if t == "Int":
+                        steps += s0; args.append(c)
+        else:
+            raise Untranslatable(f"{self.spec.lean}: exception message `{ast.unparse(msg)}`")
+        return steps, f'(⟨"{kind}", {lean_string(tmpl)}, [{", ".join(args)}]⟩ : Py.Exc)'
+
+    def s_Try(self, s):
+        """`try: body` / `except K as e: handler` (one handler naming one class)"""
+        if not self.spec.raises:
+            raise Untranslatable(f"{self.spec.lean}: try/except in a function without tracked exceptions")
+        if s.orelse or s.finalbody or len(s.handlers) != 1 or not isinstance(s.handlers[0].type, ast.Name):
+            raise Untranslatable(f"{self.spec.lean}: try statement `{ast.unparse(s).splitlines()[0]}` …")
+        h = s.handlers[0]
+        touched = self.assigned_versions(s.body)
+        body = self.block(s.body)
+        for n in touched | self.assigned_versions(h.body):
+            self.cur[n] = None
+        if h.name:
+            if h.name not in self.vars:
+                self.vars[h.name] = "Exc"
+            self.check_type(h.name, "Exc", s)
+        hb = self.block(h.body)
+        for n in self.assigned_versions(h.body):
+            self.cur[n] = None
+        bind = f"{{ v with {lname(h.name)} := e_ }}" if h.name else "v"
+        handler = f"fun (e_ : Py.Exc) (v : {self.Vt}) => {hb} {bind}"
+        if self.hoist:
+            self.nloop += 1
+            nm = f"{self.spec.lean}.try{self.nloop}"
+            rt = self.ret_t()
+            self.aux.append((nm + "_body", f"{self.Vt} → Py.Res {self.Vt} {rt}", body))
+            self.aux.append((nm + "_handler", f"Py.Exc → {self.Vt} → Py.Res {self.Vt} {rt}", handler))
+            return f'(Py.tryExcept ({nm}_body {self.args_for(body)}) "{h.type.id}" ({nm}_handler {self.args_for(handler)}))'
+        return f'(Py.tryExcept {body} "{h.type.id}" ({handler}))'
+
+    def s_With(self, s):
+        """`with X as f: body`: `f = X.__enter__()`; run the body; call the TRANSLATED `__exit__` of X's class (with the exception the body
+        raised, or None); the exception propagates unless `__exit__` returned a true value"""
+        if not self.spec.raises:
+            raise Untranslatable(f"{self.spec.lean}: `with` in a function without tracked exceptions")
+        if len(s.items) != 1:
+            raise Untranslatable(f"{self.spec.lean}: `with` with several items")
+        it = s.items[0]
+        s0, mc, mt = self.tr(it.context_expr)
+        if not (isinstance(mt, str) and mt in STRUCTS and f"__exit__#{mt}" in self.table):
+            raise Untranslatable(f"{self.spec.lean}: context manager `{ast.unparse(it.context_expr)}` : {mt} has no translated __exit__")
+        codes = []
+        m = re.fullmatch(r"v\.(\w+)", mc)
+        if m and not s0:
+            slot = m.group(1)                       # the manager is a variable: it is updated in place
+        else:
+            slot = self.fresh(mt, "mgr")
+            codes.append(self.chain(s0, f".next {{ v with {slot} := {mc} }}"))
+        # f = X.__enter__()
+        enter = ast.Call(ast.Attribute(it.context_expr, "__enter__", ast.Load()), [], [])
+        if f"__enter__#{mt}" in self.table:
+            raise Untranslatable(f"{self.spec.lean}: translated __enter__ not supported yet")
+        if ast.unparse(enter) not in self.spec.subst:
+            raise Untranslatable(f"{self.spec.lean}: the value of `{ast.unparse(enter)}` is not given")
+        if it.optional_vars is not None:
+            asg = ast.Assign([it.optional_vars], enter)
+            ast.copy_location(asg, s); ast.fix_missing_locations(asg)
+            codes.append(self.s_Assign(asg))
+        callee = self.table[f"__exit__#{mt}"]
+        if len(callee.params) != 4 or callee.fuel or callee.callbacks:
+            raise Untranslatable(f"{self.spec.lean}: signature of {callee.lean}")
+        rty = parse_type(callee.ret)
+        if callee.out == ["self"]:
+            upd, rv = f"{{ v with {slot} := r.1 }}", "r.2"
+        elif not callee.out:
+            upd, rv = "v", "r"
+        else:
+            raise Untranslatable(f"{self.spec.lean}: out-parameters of {callee.lean}")
+        truth = "false" if rty == "Unit" else self.as_bool(rv, rty)           # no `return` = None = false
+        exit_ = f"fun (v : {self.Vt}) (e : Option Py.Exc) => ({callee.lean} v.{slot} e e e).map fun r => ({upd}, {truth})"
+        touched = self.assigned_versions(s.body)
+        body = self.block(s.body)
+        for n in touched:
+            self.cur[n] = None
+        if self.hoist:
+            self.nloop += 1
+            nm = f"{self.spec.lean}.with{self.nloop}"
+            self.aux.append((nm + "_exit", f"{self.Vt} → Option Py.Exc → Option ({self.Vt} × Bool)", exit_))
+            self.aux.append((nm + "_body", f"{self.Vt} → Py.Res {self.Vt} {self.ret_t()}", body))
+            codes.append(f"(Py.withExit ({nm}_exit {self.args_for(exit_)}) ({nm}_body {self.args_for(body)}))")
+        else:
+            codes.append(f"(Py.withExit ({exit_}) {body})")
+        out = codes[-1]
+        for c in reversed(codes[:-1]):
+            out = f"(Py.seq {c}\n{out})"
+        return out
 
     def s_Assert(self, s):
         st, c, t = self.tr(s.test)
@@ -1450,7 +1641,16 @@ class FnTr:
         st, it, tit = self.tr(s.iter)
         et = self.elem_type(tit)
         self.bind_target_types(s.target, et)
+        touched = self.assigned_versions(s.body)
+        for n in touched:                    # a later iteration sees what an earlier one left
+            self.cur[n] = None
         body = self.block(s.body)
+        for n in touched:
+            self.cur[n] = None
+        stream = isinstance(tit, tuple) and tit[0] == "Stream"
+        if stream and not self.spec.raises:
+            raise Untranslatable(f"{self.spec.lean}: iteration over a stream in a function without tracked exceptions")
+        loop = (lambda b: f"Py.forEachS ({b}) ({it}).items ({it}).fail v") if stream else (lambda b: f"Py.forEach ({b}) {it} v")
         if isinstance(s.target, ast.Name):
             upd = f"{{ v with {lname(s.target.id)} := {self.coerce('x', et, self.var_type(s.target.id))} }}"
         else:
@@ -1462,9 +1662,9 @@ class FnTr:
             self.nloop += 1
             nm = f"{self.spec.lean}.for{self.nloop}"
             code = f"fun x (v : {self.Vt}) => {body} {upd}"
-            self.aux.append((nm, f"{show_type(et)} → {self.Vt} → Py.Res {self.Vt} {show_type(parse_type(self.spec.ret))}", code))
-            return self.chain(st, f"Py.forEach ({nm} {self.args_for(code)}) {it} v")
-        return self.chain(st, f"Py.forEach (fun x (v : {self.Vt}) => {body} {upd}) {it} v")
+            self.aux.append((nm, f"{show_type(et)} → {self.Vt} → Py.Res {self.Vt} {self.ret_t()}", code))
+            return self.chain(st, loop(f"{nm} {self.args_for(code)}"))
+        return self.chain(st, loop(f"fun x (v : {self.Vt}) => {body} {upd}"))
 
     def live_iteration(self, s):
         """`for x in A` / `for i, x in enumerate(A)` whose body stores into `A[...]`: Python reads the elements of `A` LIVE, one per
@@ -1540,13 +1740,18 @@ class FnTr:
                 if not hasattr(nd, "lineno"):
                     nd.lineno = nd.col_offset = nd.end_lineno = nd.end_col_offset = 0
             return self.s_While(new)
+        touched = self.assigned_versions(s.body) | self.assigned_versions([ast.Expr(s.test)])
+        for n in touched:
+            self.cur[n] = None
         st, c, t = self.tr(s.test)
         cond = self.opt_block(st, self.as_bool(c, t))
         body = self.block(s.body)
+        for n in touched:
+            self.cur[n] = None
         if self.hoist:
             self.nloop += 1
             nm = f"{self.spec.lean}.while{self.nloop}"
-            rt = show_type(parse_type(self.spec.ret))
+            rt = self.ret_t()
             ccode = f"fun (v : {self.Vt}) => {cond}"
             self.aux.append((nm + "_cond", f"{self.Vt} → Option Bool", ccode))
             self.aux.append((nm + "_body", f"{self.Vt} → Py.Res {self.Vt} {rt}", body))
@@ -1584,14 +1789,14 @@ class FnTr:
         tps = " ".join(f"({t} : Type)" for t in self.all_tparams)
         tpsi = tparam_binders(sp)
         tapp = (" " + " ".join(self.all_tparams)) if self.all_tparams else ""
-        cbb = " ".join(b for b, _, _ in sp.callbacks.values())
+        cbb = self.cbb
         params = " ".join(f"({lname(p)} : {show_type(self.vars[p])})" for p in sp.params)
         if sp.callbacks:
             params += " (cbs : σ)"
         init = ", ".join(f"{lname(p)} := {lname(p)}" for p in sp.params)
         if sp.callbacks:
             init += ", cbs := cbs"
-        ret_t = show_type(parse_type(sp.ret))
+        ret_t = self.ret_t()
         outs = list(sp.out) + (["cbs"] if sp.callbacks else [])
         if outs:
             out_t = "(" + " × ".join([show_type(self.vars[o]) if o != "cbs" else "σ" for o in outs] + [ret_t]) + ")"
@@ -1629,7 +1834,8 @@ class FnTr:
             lines.append(f"def {sp.lean} {tpsi} {cbb} {fuel}{params} : Option {out_t} :=")
             fa = "fuel " if sp.fuel else ""
             cba = self.bargs_nofuel
-            lines.append(f"  (Py.finish {dflt} ({sp.lean}.body {cba} {fa}{{ (default : {Vt}) with {init} }})).map fun r => {out_c}")
+            fin = "Py.finishX" if sp.raises else "Py.finish"
+            lines.append(f"  ({fin} {dflt} ({sp.lean}.body {cba} {fa}{{ (default : {Vt}) with {init} }})).map fun r => {out_c}")
         return "\n".join(lines) + "\n"
 
 
